@@ -166,16 +166,23 @@ func Generate(p *Profile, seed uint64) *Scenario {
 			sort.Sort(sort.Reverse(sort.IntSlice(out)))
 			return out
 		}
-		if len(sc.Nodes) > 3 {
-			sc.Nodes = sc.Nodes[:3] // seconds per node: keep such runs small
+		if len(sc.Nodes) > 2 {
+			// keep such runs small: Stump.add is quadratic in the number of additions
+			// while an empty root exists (about 12 s per verifier for 65536 additions)
+			sc.Nodes = sc.Nodes[1:3]
 		}
 		sc.Steps = append(sc.Steps, Step{Op: "block", Adds: 1 + g.Intn(40), Seed: g.Next()}, Step{Op: "tick", Dt: 3})
 		if g.Bool() {
 			sc.Steps = append(sc.Steps, Step{Op: "block", Dels: picks(1 + g.Intn(12)), Adds: g.Intn(6), Seed: g.Next()}, Step{Op: "tick", Dt: 3})
 		}
 		nd := g.Intn(20)
-		if g.Pct(45) {
+		if g.Pct(25) {
 			nd = 64 // every live leaf: all roots empty, the additions write over them
+			// (the expensive variant: one node only, alternately the plain and a big-offset one)
+			if len(sc.Nodes) > 1 {
+				k := g.Intn(len(sc.Nodes))
+				sc.Nodes = sc.Nodes[k : k+1]
+			}
 		}
 		sc.Steps = append(sc.Steps, Step{Op: "block", Dels: picks(nd), Adds: 65536 + g.Intn(40) - 3*g.Intn(2), Seed: g.Next()}, Step{Op: "tick", Dt: 3})
 		if g.Bool() {
